@@ -6,3 +6,4 @@ export CARGO_NET_OFFLINE=true
 (cd driver && cargo build --offline --release 2>&1 | tail -3)
 # warm: type-check /repo's dependencies once into /verif/.cache/target (facts for the current tree are produced too)
 python3 -m feoxlint.extract lib
+python3 -m feoxlint.extract bin
